@@ -319,7 +319,31 @@ def coin_parts(t):
         return t[2][0], t[2][1]
     if t[0] == "agg" and t[1].endswith("Coin"):
         return agg_field(t, "amount"), agg_field(t, "denom")
+    if t[0] in ("phi", "upd", "mut", "param", "field", "payload"):
+        return term_field(t, "amount"), term_field(t, "denom")
     return None, None
+
+
+def term_field(t, name):
+    """field `name` of a struct-valued term (through updates, merges, Coin::new and fresh aggregates)."""
+    from engine.mir import intern
+    if t[0] == "agg":
+        v = agg_field(t, name)
+        return v if v is not None else ("field", t, name)
+    if t[0] == "call" and t[1] == "cosmwasm_std::Coin::new" and len(t[2]) == 2:
+        return t[2][0] if name == "amount" else (t[2][1] if name == "denom" else ("field", t, name))
+    if t[0] == "upd":
+        if t[2] and t[2][0] == name:
+            return t[3] if len(t[2]) == 1 else ("upd", term_field(t[1], name), t[2][1:], t[3])
+        return term_field(t[1], name)
+    if t[0] == "phi":
+        alts = []
+        for a in t[1]:
+            f = term_field(a, name)
+            if f not in alts:
+                alts.append(f)
+        return alts[0] if len(alts) == 1 else intern(("phi", tuple(alts)))
+    return intern(("field", t, name))
 
 
 def vec_elems(t):
@@ -472,3 +496,111 @@ def is_oracle_poster(prog, callterm):
                 if rv.get("agg") == "adt" and rv["adt"].endswith("oracle::Oracle") and rv["variant"] == "PostRates":
                     return True
     return False
+
+
+# --------------------------------------------------------------------------- withdraw / fees / recover (C02, C05, C07, C11)
+
+
+def loaded_batch(prog, t, key_pred=None):
+    """t = Ok payload of BATCHES.load(storage, key)"""
+    if t[0] != "payload":
+        return False
+    c = unwrap_payload(t)
+    if not (c[0] == "call" and c[1] in ("cw_storage_plus::Map::load",) and ns_of(prog, c[2][0]) == "batches"):
+        return False
+    return key_pred is None or key_pred(c[2][2])
+
+
+def msg_field(t, variant, name):
+    """t is field `name` of ExecuteMsg variant `variant` (handler parameter bound through the dispatcher)."""
+    return t[0] == "field" and t[2] == name and t[1][0] == "variant" and t[1][2] == variant
+
+
+def withdraw_rules(R, env, prog, hctx, rule, pid):
+    """C02.R1 / C05.R1"""
+    hk = hctx.body.key
+    batch = lambda t: loaded_batch(prog, t, lambda k: msg_field(k, "Withdraw", "batch_id"))
+    req_key = lambda k: k[0] == "tuple" and len(k[1]) == 2 and k[1][0][0] == "field" and k[1][0][2] == "id" and batch(k[1][0][1]) and is_sender(k[1][1])
+
+    def request(t):  # payload of unstake_requests().may_load(storage, (batch.id, sender))?
+        if t[0] != "payload":
+            return False
+        inner = t[1]
+        if inner[0] != "payload":
+            return False
+        c = unwrap_payload(inner)
+        return c[0] == "call" and c[1].endswith("IndexedMap::may_load") and ns_of(prog, c[2][0]) == "unstake_requests" and req_key(c[2][2])
+
+    # payout message
+    sends = find_msgs(prog, hctx, env.depth, ["bank::v1beta1::MsgSend", "cosmwasm_std::BankMsg"])
+    R.ob(rule, "Withdraw:one-payout", len(sends) == 1, "found %d bank sends" % len(sends), fn=hk)
+    payout_bb = None
+    for c, path, bi, t in sends:
+        loc = c.body.loc(bi)
+        elems = vec_elems(agg_field(t, "amount") or ("none",)) or []
+        amt, den = coin_parts(elems[0]) if len(elems) == 1 else (None, None)
+        good = False
+        why = fmt(amt or ("none",))[:200]
+        if amt is not None and amt[0] == "call" and amt[1] == "cosmwasm_std::Uint128::multiply_ratio" and len(amt[2]) == 3:
+            recv, num, den_ = amt[2]
+            good = (
+                recv[0] == "payload" and recv[1][0] == "field" and recv[1][2] == "received_native_unstaked" and batch(recv[1][1])
+                and num[0] == "field" and num[2] == "amount" and request(num[1])
+                and den_[0] == "field" and den_[2] == "batch_total_liquid_stake" and batch(den_[1])
+            )
+        R.ob(rule, "Withdraw:payout-formula", good, "payout = %s; expected received_native_unstaked.multiply_ratio(own request amount, batch_total_liquid_stake) of the batch named in the message" % why, loc=loc, fn=hk)
+        R.ob(rule, "Withdraw:payout-denom", ibc_denom(prog, den), "payout denom %s" % fmt(den or ("none",))[:80], loc=loc, fn=hk)
+        R.ob(rule, "Withdraw:payee-is-caller", is_sender(agg_field(t, "to_address") or ("none",)), "payout goes to %s" % fmt(agg_field(t, "to_address") or ("none",))[:80], loc=loc, fn=hk)
+        R.ob(rule, "Withdraw:paid-from-contract", is_contract_addr(agg_field(t, "from_address") or ("none",)), "payout is sent from %s" % fmt(agg_field(t, "from_address") or ("none",))[:80], loc=loc, fn=hk)
+        ok_resp = all(term_in_all_paths(term, lambda s_, t=t: norm(s_) == norm(t)) for _, term in success_terms(hctx))
+        R.ob(rule, "Withdraw:payout-in-response", ok_resp, "the payout message does not reach the Response on every success path", loc=loc, fn=hk)
+    # removal on every success path, under the caller's own key
+    rms = [op for op in storage_ops_deep(prog, hctx, env.depth) if op["kind"] == "w" and ns_of(prog, op["args"][0]) == "unstake_requests"]
+    R.ob(rule, "Withdraw:one-request-write", len(rms) == 1 and rms[0]["op"] == "remove", "unstake_requests writes in Withdraw: %s" % [o["op"] for o in rms], fn=hk)
+    for op in rms:
+        R.ob(rule, "Withdraw:removes-own-request", req_key(op["args"][2]), "request removed under key %s, expected (loaded batch id, info.sender)" % fmt(op["args"][2])[:160], loc=op["loc"], fn=hk)
+        R.ob(rule, "Withdraw:removal-on-every-success-path", must_pass(hctx, op["root_bb"]), "a success exit (payout) is reachable without deleting the claim: it can be withdrawn again", loc=op["loc"], fn=hk)
+    # absence of a request is an error exit
+    G = Guard("has-request", subject=lambda s: False, boolean=lambda t: (False if (t[0] == "call" and t[1] == "std::option::Option::is_none" and t[2][0][0] == "payload" and request(("payload", t[2][0], "Ok/Some"))) else (True if (t[0] == "call" and t[1] == "std::option::Option::is_some" and t[2][0][0] == "payload" and request(("payload", t[2][0], "Ok/Some"))) else None)),
+              variant=lambda subj, names: ({"Some"} if (subj[0] == "payload" and request(("payload", subj, "Ok/Some"))) else None))
+    found = []
+    ok, off = guarded(hctx, G, prog, env.depth, found)
+    R.ob(rule, "Withdraw:no-request-no-payout", ok, "a success exit is reachable for a caller without a request in the batch: %s" % (off,), fn=hk, found=found)
+    # status must be Received
+    def status_guard(t):
+        if t[0] == "call" and t[1] in EQ:
+            a, b = t[2]
+            for x, y in ((a, b), (b, a)):
+                if x[0] == "field" and x[2] == "status" and batch(x[1]) and y[0] == "agg" and y[1].endswith("BatchStatus") and y[2] == "Received":
+                    return EQ[t[1]]
+        return None
+    G2 = Guard("status-received", boolean=status_guard)
+    found = []
+    ok, off = guarded(hctx, G2, prog, env.depth, found)
+    R.ob(rule, "Withdraw:only-received-batches", ok, "a success exit is reachable for a batch whose status is not Received: %s" % (off,), fn=hk, found=found)
+
+
+def fee_term(prog, t):
+    """fee = dao_treasury_fee.multiply_ratio(reward, 100000) (any operand order of the product)"""
+    if not (t[0] == "call" and t[1] == "cosmwasm_std::Uint128::multiply_ratio" and len(t[2]) == 3):
+        return None
+    a, b, c = t[2]
+    return a, b, c
+
+
+def is_reward(prog, t):
+    return t[0] == "field" and t[2] == "amount" and funds_coin(prog, t[1])
+
+
+def is_fee(prog, t):
+    from .common import const_int
+    p = fee_term(prog, t)
+    if p is None:
+        return False
+    a, b, c = p
+    rate = lambda x: loaded_field(prog, x, "config", ["protocol_fee_config", "dao_treasury_fee"], "staking")
+    return ((rate(a) and is_reward(prog, b)) or (rate(b) and is_reward(prog, a))) and const_int(c) == 100000
+
+
+def treasury_pred(prog):
+    return lambda t: loaded_field(prog, t, "config", ["protocol_fee_config", "treasury_address"], "staking")
